@@ -22,6 +22,7 @@ func init() {
 	})
 	Register(&Prop{
 		ID: "C06", Bubble: true, Run: runC06, QuickRuns: 2500,
+		ExpectedProbes: []string{"floor_reached", "concurrent_aimd_checked"},
 		Rule: "one run = AIMD / Vegas / Gradient in a state reached by a seeded prefix history (0..300 samples incl. faults), then (i) every drop sample of the whole history is checked for 'never raises' (AIMD: exact back-off value by rational arithmetic for dyadic ratios), (ii) a sustained run of drop samples with constant rtt (0, 1, baseline, multiples, 2^40) must reach the floor within a configuration-derived number of samples; " +
 			"non-trivial = the prefix changed the estimate and the sustained run had to move the estimate; distinct = distinct choice tapes",
 		Real:        []string{"limit.AIMDLimit", "limit.VegasLimit", "limit.GradientLimit", "limit/functions", "measurements.MinimumMeasurement"},
@@ -31,6 +32,7 @@ func init() {
 	})
 	Register(&Prop{
 		ID: "C07", Bubble: true, Run: runC07, QuickRuns: 2500,
+		ExpectedProbes: []string{"app_limited_sample_checked", "gradient_probe_during_healthy_run", "concurrent_aimd_checked"},
 		Rule: "one run = AIMD / Vegas / Gradient / Gradient2 in a state reached by a seeded prefix history (incl. drops and zero RTTs); (a) every non-drop sample with in-flight below half the estimate (below the estimate for AIMD) must not raise it; (b) a healthy run (no drops, in-flight >= 2 x ceiling, constant rtt not above the baseline) must raise the estimate again and bring it within one of the ceiling within a configuration-derived number of samples (AIMD +increment per sample; Gradient >= queue allowance per non-probe sample); " +
 			"non-trivial = at least one app-limited sample was checked and the healthy run started below the ceiling; distinct = distinct choice tapes",
 		Real:        []string{"limit.AIMDLimit", "limit.VegasLimit", "limit.GradientLimit", "limit.Gradient2Limit", "measurements.*"},
